@@ -33,6 +33,7 @@ EXPRS = {
     "quad_xy": ("bin", "+", ("bin", "*", X, X), ("bin", "*", ("const", ("sym", "c2")), ("bin", "*", Y, Y))),
     "lin_xz": ("bin", "+", X, ("bin", "*", ("num", ("sym", "c1")), Z)),
     "exp_xz": ("bin", "+", ("un", "exp", X), ("bin", "*", Z, Z)),
+    "lin_ax": ("bin", "+", ("var", "a"), ("bin", "*", ("const", ("sym", "c1")), X)),   # linear twin of quad_ax (targeted histories only)
     "quad_ax": ("bin", "+", ("bin", "*", ("var", "a"), ("var", "a")), ("bin", "*", ("const", ("sym", "c1")), X)),   # 'a' sorts BEFORE x: shifts the layout
 }
 CONS = {
@@ -62,7 +63,7 @@ def worker_init(tier, seed):
 
 
 def alphabet(tier):
-    ops = [("min", k) for k in EXPRS] + [("max", "lin_xy")] + [("sub", k) for k in CONS] + [("lb", "y"), ("ub", "x")]
+    ops = [("min", k) for k in EXPRS if k != "lin_ax"] + [("max", "lin_xy")] + [("sub", k) for k in CONS] + [("lb", "y"), ("ub", "x")]
     if tier == "quick":   # keep the exhaustive product affordable: one representative of each kind in the middle positions
         ops = [o for o in ops if o not in (("min", "exp_xz"), ("sub", "c_eq"))]
     obs = [("solve", m) for m in SOLVES + (["L-BFGS-B", "highs-ds"] if tier == "thorough" else [])] + [("read", "")]
@@ -101,6 +102,15 @@ def items(tier, seed):
                     for C2 in subs:
                         if C1 != C2:
                             extra.append((A, m1, C1, C2, m2))
+    # the objective is replaced by one over ANOTHER variable set of the SAME size (x,z -> a,x with constraints on x,y: three
+    # variables before and after, other columns), on the LP and on the NLP route
+    for A, B in (("lin_xz", "lin_ax"), ("lin_ax", "lin_xz"), ("exp_xz", "quad_ax"), ("quad_ax", "exp_xz"), ("lin_xz", "quad_ax"), ("quad_ax", "lin_xz")):
+        for C_ in (("sub", "c_lin"), ("sub", "c_nl"), ("sub", "c_eq")):
+            for m1 in (("solve", "auto"), ("solve", "SLSQP"), ("solve", "highs")):
+                for m2 in (("solve", "auto"), ("solve", "SLSQP"), ("solve", "highs")):
+                    for setB in ("min", "max"):
+                        extra.append((("min", A), C_, m1, (setB, B), m2))
+                        extra.append((("min", A), C_, m1, (setB, B), ("read", "")))
     # method interleavings: the first solve after an edit uses a derivative-free / bounds-less method (the compiled
     # cache is built for it), a later solve of the unchanged model a derivative-based one, and the other way round
     free = [("solve", "Nelder-Mead"), ("solve", "BFGS")]
